@@ -133,6 +133,7 @@ func c02Scenario(cfg c02Config) {
 	// requests made when the limit had already been reached (a worker was refused an id before the tick was
 	// issued) can only fail because of the limit: they must never be reported as dropped
 	droppable := int64(0)
+	var lateTick [8]bool
 	for i := 0; i < cfg.ticks; i++ {
 		late := false
 		for w := 0; w < cfg.workers; w++ {
@@ -140,6 +141,7 @@ func c02Scenario(cfg c02Config) {
 				late = true
 			}
 		}
+		lateTick[i] = late
 		if !late {
 			droppable += int64(zz.Int("n", i))
 		}
@@ -147,12 +149,29 @@ func c02Scenario(cfg c02Config) {
 	refusals := int64(0)
 	for w := 0; w < cfg.workers; w++ {
 		if zz.Happened("refused", c02FirstTid+w) {
-			refusals++ // each refusal consumed one admitted request (its take succeeded)
+			// a refusal consumed one admitted request (its take succeeded); it was certainly a request of a not-late
+			// tick when the refusal precedes every late tick (a later refusal of another worker may have taken a
+			// late tick's request instead - found by the 2-worker thorough run - and is then not charged)
+			early := true
+			for i := 0; i < cfg.ticks; i++ {
+				if lateTick[i] && !zz.Before("refused", "tick", c02FirstTid+w, i) {
+					early = false
+				}
+			}
+			if early {
+				refusals++
+			}
 		}
 	}
 	// the requests of the not-late ticks pay for every start, every refused take and every reported drop
 	zz.Assert("C02.limit_starved_requests_never_reported_dropped", dropped+started+refusals <= droppable)
-	if refusals == 0 && !envCancels {
+	anyRefusal := false
+	for w := 0; w < cfg.workers; w++ {
+		if zz.Happened("refused", c02FirstTid+w) {
+			anyRefusal = true
+		}
+	}
+	if !anyRefusal && !envCancels {
 		// no worker was ever refused an id (so nothing can have failed "solely because of the limit") and all
 		// ticks were admitted (the context is cancelled only after the last tick): full conservation
 		zz.Assert("C02.conserved_without_limit", started+dropped == requested && residue == 0)
